@@ -97,7 +97,7 @@ CLAIMED = {
                   'the queue; application sends in the forbidden states return false and leave queue and driver untouched.  Tied to the C++ by correspondence on claim-window histories; oracle independent of the model.',
              note=TB + 'Open known findings claim-window:queued-frame-flushed / former-address:queued-frame-flushed (D-05): the wire-level reading is machine-checked false (C04_wire_level_refuted) because frames queued earlier are '
                   'flushed inside the window; wire_level is proved under the hypothesis that the queue holds no such frame.  Hypothesis clock_ok (64-bit clock below 2^63).  Debug modes dm_ClearText/dm_Actisense out of scope.  '
-                  'gf contract proved for the no-op instance.',
+                  'gf contract proved for the no-op instance and for the library's handlers (C04_gf_lib_ok).',
              design='6 C04', technique='Coq refinement proof (node step -> send-entitlement machine) + extracted-model/implementation correspondence'),
  'C02': dict(ready=False, text='rx_no_corruption: for every group-function reaction satisfying a frame contract, every clean node and EVERY operation list (any interleaving, any losses, any number of senders and slots, any clock), each '
                   'non-TP delivery is justified by an increasing run of arrived frames (one first frame, continuation frames with the same PGN/source/destination and consecutive sequence bytes, announced length reached exactly at '
